@@ -235,7 +235,7 @@ class C09(Check):
     HEADER2 = "From Verif Require Import C09.Model gen.Gen_C09_impl C09.GenOk."
     RUN2 = "grun_case"
     N_QUICK = 1400
-    N_THOROUGH = 20000
+    N_THOROUGH = 15000
     RULE = ("configurations max_operations 1..12, error_threshold 1..4, renewal on/off, lifetime limit off/3..30 s, idle limit "
             "off/2..10 s - and, for 25% of the configurations (80% of the 'away' histories), limits on every scale the constructor "
             "takes: 1.5/2.5 s, 45/90 s, 20/30 min, 1..12 h, exactly 1 day, 1 day + 1 s, 25/36 h, 2..30 days (read back from the "
@@ -257,8 +257,8 @@ class C09(Check):
             "<=3 on 2 small configurations, and all of depth <=3 over a 9-call alphabet with clock steps of 25 min, 1 day + 5 min, "
             "3 days + 1 h on a configuration with lifetime 2 h / idle 45 min, and all of depth <=3 over a 10-symbol alphabet with 5 "
             "assignments (start, tick(1), record_error, renew(), reset, allow_renewal False/True, max_operations 1/3, "
-            "error_threshold 1) (quick); plus all of depth 5 (alphabet without heartbeat) "
-            "on one, of depth 4 on two more configurations, of depth 4 on the days configuration, on the assignment alphabet "
+            "error_threshold 1) (quick); plus all of depth 4 "
+            "on three configurations, of depth 4 on the days configuration, on the assignment alphabet "
             "and on an 8-symbol alphabet with time-limit assignments (tick, heartbeat, check_timeouts, renew, advance 5 s, "
             "max_lifetime 5 s, idle_timeout None / 2 s) (thorough). After an assignment the five attributes are read back from the object and compared with the model's "
             "configuration in force. "
@@ -849,7 +849,7 @@ class C09(Check):
                        ["set", "life_s", 5], ["set", "idle_s", None], ["set", "idle_s", 2]]
         plan = [(A, [1, 2, 3], full), (B, [1, 2, 3], full), (D, [1, 2, 3], away), (E, [1, 2, 3], reconf)]
         if self.tier != "quick":
-            plan += [(A, [5], no_hb), (B, [4], full), (C, [4], full), (D, [4], away), (E, [4], reconf),
+            plan += [(A, [4], full), (B, [4], full), (C, [4], full), (D, [4], away), (E, [4], reconf),
                      (E, [1, 2, 3, 4], reconf_time)]
         out = []
         for cfg, depths, alphabet in plan:
